@@ -253,7 +253,17 @@ impl<DiError, P> From<ModelInitError<DiError>> for InitError<DiError, P> {
 }
 
 /// Marker type for no reset pin.
+#[cfg(not(almindor_mipidsi_verif))]
 pub enum NoResetPin {}
+
+/// Marker type for no reset pin (verification build: Kani 0.68 cannot compile
+/// projections into `Option<Uninhabited>`, so the marker gets one hidden variant
+/// that is never constructed).
+#[cfg(almindor_mipidsi_verif)]
+pub enum NoResetPin {
+    #[doc(hidden)]
+    __Verif,
+}
 
 impl digital::OutputPin for NoResetPin {
     fn set_low(&mut self) -> Result<(), Self::Error> {
